@@ -292,7 +292,7 @@ PROPS = {
     "C19": dict(
         stages=[dict(test="TestC19", pkg="c19", quick=(16, 30), thorough=(16, 1500), timeout=dict(quick=900, thorough=3300),
                      crash_is_violation=True)],
-        rule="case = sim chain with 1-4 validators and 1-4 data sources whose executables are 1..4096 bytes (incl. < 32), 1-3 transactions of 1-3 requests with 1-6 raw requests (repeated sources), 1-3 ROUNDS handled by the same daemon Context and file cache with owner/foreign MsgEditDataSource transactions between rounds and between a request and its handling (new bytes, same bytes, [do-not-modify], fee/treasury only), later rounds asking edited sources again, selection of the validator decided by the chain, RPC stub with injected "
+        rule="case = sim chain with 1-4 validators and 1-4 data sources whose executables are 1..4096 bytes (incl. < 32), 1-3 transactions of 1-3 requests with 1-6 raw requests (repeated sources), 1-3 ROUNDS handled by the same daemon Context and file cache (cache files of a data source truncated / overwritten / emptied / deleted between rounds and before restarts; oracle parameters MaxRawRequestCount / MaxReportDataSize / MaxCalldataSize changed by real governance proposals while requests are open, incl. MaxRawRequestCount below an open request's raw-request count) with owner/foreign MsgEditDataSource transactions between rounds and between a request and its handling (new bytes, same bytes, [do-not-modify], fee/treasury only), later rounds asking edited sources again, selection of the validator decided by the chain, RPC stub with injected "
              "transient/permanent failures, executor stub with drawn outcome/delay per raw request or (30%) the REAL REST executor of yoda/executor against an in-process HTTP endpoint (200 with stdout/stderr, non-2XX pages of 0..2000 bytes, truncated JSON, closed connection, hang until the client times out), restart rounds where other validators report first and a fresh daemon learns open requests through the start-up PendingRequests query, cache hit/miss, oracle MaxReportDataSize 16/64/512 with executor outputs at max-1/max/max+1 (cut to the limit as the docker executor does, or not cut as the REST executor), every queued report DELIVERED to the chain in a real block, entry via handleRequest or handleTransaction, order/GOMAXPROCS perturbation; non-trivial = a processed request selecting the validator with >=2 raw requests "
              "AND >=1 injected failure actually served; distinct = hash of case JSON",
         explanation="after quiescence: exactly one MsgReportData per request selecting the validator (none otherwise), one raw report per external "
@@ -305,9 +305,9 @@ PROPS = {
         stages=[dict(test="TestC20Loop", pkg="c20", quick=(16, 14), thorough=(16, 1200), timeout=dict(quick=900, thorough=3400)),
                 dict(test="TestC20Submit", pkg="c20", quick=(8, 250), thorough=(16, 12500), timeout=dict(quick=600, thorough=3300))],
         rule="Loop: closed loop in virtual time (200-600 s, 1 s polling with drawn phase) between the real signaller step and the real feeds module on a "
-             "sim chain: price-service streams with status flips and moves at old*(1+-dev)+{-1,0,1}, feed-list changes by votes, feeds parameter changes through real governance proposals in the middle of the run (CooldownTime up/down, GracePeriod, MaxInterval, deviation bounds, PriceQuorum) followed by bursts of moves and status flips, drawn block-time "
+             "sim chain: price-service streams with status flips and moves at old*(1+-dev)+{-1,0,1}, feed-list changes by votes, feeds parameter changes through real governance proposals in the middle of the run (CooldownTime up/down, GracePeriod, MaxInterval / MinInterval / PowerStepThreshold raised and cut with no feed recalculation for the rest of the history in a third of the slow-update cases, deviation bounds, PriceQuorum; the daemon reads the feed list through the real CurrentFeeds query server, whose answer is compared with the stored record after every block) followed by bursts of moves and status flips, drawn block-time "
              "offsets in [-3 s,+0.9 s], lost/failed/delayed (3-4 ticks in flight) submissions, current-feeds recalculations that change a listed feed's power/interval/deviation while its batch is in flight, non-round deviation thresholds with moves of exactly the threshold; non-trivial = >=1 status-change, >=1 deviation-triggered and >=1 slot-triggered "
-             "submission. Submit: submitPrice against RPC stubs with 10 drawn failure kinds; non-trivial = >=1 injected failure; distinct = hash of case JSON",
+             "submission. Submit: submitPrice against RPC stubs with 10 drawn failure kinds and 1-3 nodes with per-node behaviour (healthy, slow, fails fast, fails late, CheckTx code; broadcasts attributed by the account sequence the tx carries); non-trivial = >=1 injected failure; distinct = hash of case JSON",
         explanation="(1) every landed submission is accepted by the real MsgSubmitSignalPrices handler under the chain's CURRENT params (a submission decided before a parameter change became visible to the daemon's once-per-tick poll is excused and counted); (2) the validator is never deactivated for a signal "
                     "the price service kept serving; (3) integer reference predicate (status change or deviation >= threshold, past cooldown+buffer, not "
                     "in flight) => the step emits the signal; (4) nothing in flight is emitted again, pending set == harness in-flight set; Part B: after "
